@@ -120,3 +120,69 @@ package shaping
 //@   loop 1 invariant [first-start] implies(len(run.Glyphs) > 0 && startGIdx == 0, run.Glyphs[0].startLetterSpacing == old(run.Glyphs[0].startLetterSpacing) && run.Glyphs[0].XOffset == old(run.Glyphs[0].XOffset) && run.Glyphs[0].YOffset == old(run.Glyphs[0].YOffset))
 //@   loop 1 invariant [first-start-done] implies(len(run.Glyphs) > 0 && startGIdx > 0, run.Glyphs[0].startLetterSpacing == old(run.Glyphs[0].startLetterSpacing) + ite(isStartRun, fixed.Int26_6(0), additionalSpacing/2) && implies(isStartRun, run.Glyphs[0].XOffset == old(run.Glyphs[0].XOffset) && run.Glyphs[0].YOffset == old(run.Glyphs[0].YOffset)))
 //@   loop 1 decreases len(run.Glyphs) - startGIdx
+//
+// ---------------------------------------------------------------------------------------------
+// Property C08: visual order follows UAX #9 rule L2. Output carries only the parity of the embedding level
+// (its Direction's progression), so L2 is stated for the two levels the data can express: runs whose progression
+// equals the paragraph's stay at their base position; maximal sequences of opposite runs are reversed in place.
+// basePos: logical index for a left-to-right/top-to-bottom paragraph, mirrored for the converse.
+//@ spec oppRun(line Line, dir di.Direction, k int) bool = line[k].Direction.Progression() != dir.Progression()
+//@ spec basePos(dir di.Direction, n int, k int) int = ite(bool(dir.Progression()), n-1-k, k)
+//
+//@ func swapVisualOrder C08
+//@   mode int
+//@   ensures [reversed] forall(i, 0, len(subline), subline[i].VisualIndex == old(subline[len(subline)-1-i].VisualIndex))
+//@   modifies subline[:].VisualIndex
+//@   loop 1 invariant [L] L == len(subline)
+//@   loop 1 invariant [swapped] forall(i, 0, rangeindex+1, subline[i].VisualIndex == old(subline[L-1-i].VisualIndex) && subline[L-1-i].VisualIndex == old(subline[i].VisualIndex))
+//@   loop 1 invariant [middle] forall(i, rangeindex+1, L-1-rangeindex, subline[i].VisualIndex == old(subline[i].VisualIndex))
+//
+//@ func computeBidiOrdering C08
+//@   mode int
+//@   requires len(finalLine) < 1<<31
+//@   ensures [range] forall(k, 0, len(finalLine), 0 <= int(finalLine[k].VisualIndex) && int(finalLine[k].VisualIndex) < len(finalLine))
+//@   ensures [same-direction-fixed] forall(k, 0, len(finalLine), implies(!oppRun(finalLine, dir, k), int(finalLine[k].VisualIndex) == basePos(dir, len(finalLine), k)))
+//@   ensures [all-opposite-reversed] implies(forall(k, 0, len(finalLine), oppRun(finalLine, dir, k)), forall(k, 0, len(finalLine), int(finalLine[k].VisualIndex) == basePos(dir, len(finalLine), len(finalLine)-1-k)))
+//@   modifies finalLine[:].VisualIndex
+//@   loop 1 invariant [bidi-range] bidiStart == -1 || (0 <= bidiStart && bidiStart <= rangeindex)
+//@   loop 1 invariant [open-block] implies(bidiStart != -1, forall(k, bidiStart, rangeindex+1, oppRun(finalLine, dir, k) && int(finalLine[k].VisualIndex) == basePos(dir, len(finalLine), k)))
+//@   loop 1 invariant [same-direction-fixed] forall(k, 0, rangeindex+1, implies(!oppRun(finalLine, dir, k), int(finalLine[k].VisualIndex) == basePos(dir, len(finalLine), k)))
+//@   loop 1 invariant [range] forall(k, 0, rangeindex+1, 0 <= int(finalLine[k].VisualIndex) && int(finalLine[k].VisualIndex) < len(finalLine))
+//@   loop 1 invariant [all-opposite-so-far] implies(rangeindex >= 0 && forall(k, 0, rangeindex+1, oppRun(finalLine, dir, k)), bidiStart == 0)
+//
+// ---------------------------------------------------------------------------------------------
+// Properties C02/C03: run cutting and break validity. mapping is the rune -> first-glyph-of-cluster map of run.
+//@ spec isRTL(d di.Direction) bool = bool(d.Progression())
+//@ spec mapOK(run Output, mapping []int) bool = len(mapping) == run.Runes.Count && len(mapping) > 0 && len(run.Glyphs) > 0 &&
+//@   | forall(k, 0, len(mapping), 0 <= mapping[k] && mapping[k] < len(run.Glyphs)) &&
+//@   | forall(k, 0, len(mapping), forall(l, k, len(mapping), ite(isRTL(run.Direction), mapping[k] >= mapping[l], mapping[k] <= mapping[l])))
+//@ spec cutLo(run Output, startRune int) int = max(startRune-run.Runes.Offset, 0)
+//@ spec cutHi(run Output, mapping []int, endRune int) int = min(endRune-run.Runes.Offset, len(mapping)-1)
+//
+//@ func cutRun C02
+//@   mode bv
+//@   requires mapOK(run, mapping)
+//@   requires 0 <= run.Runes.Offset && run.Runes.Offset <= 1<<40 && 0 <= startRune && startRune <= endRune && endRune <= 1<<40
+//@   requires endRune >= run.Runes.Offset && startRune < run.Runes.Offset+len(mapping)
+//@   ensures [rune-start] result.Runes.Offset == max(run.Runes.Offset, startRune)
+//@   ensures [rune-end] result.Runes.Offset+result.Runes.Count-1 == min(endRune, run.Runes.Offset+len(mapping)-1)
+//@   ensures [nonempty] result.Runes.Count >= 1
+//@   ensures [glyph-lo] len(result.Glyphs) >= 0
+//@   ensures [advance] result.Advance == sumAdv(result.Glyphs, 0, len(result.Glyphs), result.Direction.IsVertical())
+//@   ensures [same-run] result.Direction == run.Direction && result.Face == run.Face && result.Size == run.Size
+//@   ensures [shares-or-copies] implies(!trimStart, rid(result.Glyphs) == rid(run.Glyphs))
+//@   modifies nothing
+//
+// isValid: "never ends inside a shaped glyph cluster".
+//@ func breakOption.isValid C03
+//@   mode bv
+//@   requires forall(k, 0, len(runeToGlyph), 0 <= runeToGlyph[k])
+//@   requires 0 <= out.Runes.Offset && out.Runes.Offset <= 1<<40 && 0 <= option.breakAtRune && option.breakAtRune <= 1<<40
+//@   ensures [never-inside-cluster] implies(result && option.breakAtRune-out.Runes.Offset >= 0 && option.breakAtRune-out.Runes.Offset+1 < len(runeToGlyph),
+//@     | runeToGlyph[option.breakAtRune-out.Runes.Offset] < len(out.Glyphs) && runeToGlyph[option.breakAtRune-out.Runes.Offset+1] < len(out.Glyphs) &&
+//@     | out.Glyphs[runeToGlyph[option.breakAtRune-out.Runes.Offset]].ClusterIndex != out.Glyphs[runeToGlyph[option.breakAtRune-out.Runes.Offset+1]].ClusterIndex)
+//@   ensures [valid-otherwise] implies(!(option.breakAtRune-out.Runes.Offset >= 0 && option.breakAtRune-out.Runes.Offset+1 < len(runeToGlyph)), result)
+//@   ensures [rejects-only-cluster-interior] implies(!result, option.breakAtRune-out.Runes.Offset >= 0 && option.breakAtRune-out.Runes.Offset+1 < len(runeToGlyph) &&
+//@     | (runeToGlyph[option.breakAtRune-out.Runes.Offset] >= len(out.Glyphs) || runeToGlyph[option.breakAtRune-out.Runes.Offset+1] >= len(out.Glyphs) ||
+//@     | out.Glyphs[runeToGlyph[option.breakAtRune-out.Runes.Offset]].ClusterIndex == out.Glyphs[runeToGlyph[option.breakAtRune-out.Runes.Offset+1]].ClusterIndex))
+//@   modifies nothing
